@@ -311,6 +311,7 @@ func denitKernelStage(c *vh.Ctx, n int, prop string) {
 	}
 	saved := kept
 	c.Correspond("nitro.denit", cases, impl, 1e-9, 1e-12, func(i int) interface{} { return saved[i] })
+	denitrSrcImpStage(c, saved)
 }
 
 // nitroProjects: the whole-simulation inputs of C02/C07 — moderate and extreme weather, drains with
